@@ -121,6 +121,8 @@ def run_property(pid, tier, seed):
     t0 = time.time()
     cfg = registry.PROPS[pid]
     kf = findings.load()
+    import shutil
+    shutil.rmtree(os.path.join(ROOT, 'replays', pid), ignore_errors=True)
     jobs = []
     units_by_id = {}
     n_inst = 0
